@@ -15,40 +15,15 @@
    when a tracking task notices the loss), and still including C16-N2: a loss during the
    SessionInitialized emission (later handlers still run on the dead connection). *)
 From Coq Require Import List Bool Arith.
+From Slsk Require Export C16.Types.
+From SlskGen Require Export SessionGen.
 Import ListNotations.
 
 (* ---------------------------------------------------------------------------------------- *)
 (* (1) the burst *)
 
-Record settings := mkSettings {
-  s_port : nat; s_obf_port : nat;          (* 0 = not configured *)
-  s_friends : list nat; s_liked : list nat; s_hated : list nat; s_favorites : list nat;
-  s_auto_join : bool; s_invites : bool; s_reconnect : bool }.
-
-Inductive bmsg :=
-| SetListenPort (port obf_amount obf_port : nat)
-| CheckPrivileges
-| SetStatusOnline
-| AddUser (u : nat)                     (* 0 = the own name *)
-| AddInterest (i : nat)
-| AddHatedInterest (i : nat)
-| TogglePrivateRoomInvites (b : bool)
-| JoinRoom (r : nat)
-| SharedFoldersFiles (folders files : nat)
-| BranchLevel (l : nat)
-| BranchRoot (u : nat)
-| ToggleParentSearch (b : bool).
-
-(* ports = the listening ports actually open (0 when not open), as returned by get_listening_ports *)
-Definition login_burst (s : settings) (ports : nat * nat) (shares : nat * nat) : list bmsg :=
-  [SetListenPort (fst ports) (if Nat.eqb (snd ports) 0 then 0 else 1) (snd ports)]
-  ++ [BranchLevel 0; BranchRoot 0; ToggleParentSearch true]
-  ++ [CheckPrivileges; SetStatusOnline]
-  ++ AddUser 0 :: map AddUser (s_friends s)
-  ++ [TogglePrivateRoomInvites (s_invites s)]
-  ++ (if s_auto_join s then map JoinRoom (s_favorites s) else [])      (* room/manager.py:537  `if auto_join` (F19 repaired) *)
-  ++ map AddInterest (s_liked s) ++ map AddHatedInterest (s_hated s)
-  ++ [SharedFoldersFiles (fst shares) (snd shares)].
+(* [login_burst s ports shares] is GENERATED (SlskGen.SessionGen) from the six SessionInitialized handlers;
+   ports = the listening ports actually open (0 when not open), as returned by get_listening_ports *)
 
 (* what the property says must be sent: the same, with the favourite rooms iff auto_join *)
 Definition spec_burst (s : settings) (ports : nat * nat) (shares : nat * nat) : list bmsg :=
@@ -67,7 +42,6 @@ Definition is_join (m : bmsg) : bool := match m with JoinRoom _ => true | _ => f
 (* (2) the machine *)
 
 Inductive cstate := Uninit | Connected | Closed.
-Inductive reason := REof | RRead | RWrite | RTimeout | RRequested.
 Inductive reply := RepOk | RepRejected | RepGarbled | RepEof.
 (* SessionInitializedEvent listeners, in registration order (client.py 66-82) *)
 Inductive handler := HNetwork | HDistributed | HUsers | HRooms | HInterests | HShares | HTransfers | HSearches.
@@ -103,14 +77,17 @@ Record st := mkSt {
 
 Definition init : st := mkSt Uninit false false false false false false false false.
 
-Definition keeps_watchdog (r : reason) : bool :=
-  match r with RRequested | REof => false | _ => true end.
+(* [keeps_watchdog], [watchdog_on_connect] and the booleans saying which cleanup exists are GENERATED
+   (SlskGen.SessionGen) from network.py / client.py / the managers' _on_state_changed listeners. *)
 
 (* the CLOSING + CLOSED notifications of the server connection, delivered completely *)
 Definition closed (r : reason) (x : st) : st * list out :=
   (* managers drop their session copy on SessionDestroyedEvent, which is only emitted when the client has a session *)
-  (mkSt Closed false (if session x then false else msession x) false false (watchdog x && keeps_watchdog r) (parents x) (stopped x) false,
-   if session x then [OSessionDestroyed] else []).
+  let destroyed := session x && closed_destroys_session in
+  (mkSt Closed (session x && negb closed_destroys_session) (if destroyed then false else msession x)
+        (derived x && negb (closed_resets_users && closed_resets_rooms && closed_stops_tracking))
+        (dist x && negb state_change_resets_dist) (watchdog x && keeps_watchdog r) (parents x) (stopped x) false,
+   if destroyed then [OSessionDestroyed] else []).
 
 Definition login_sent (x : st) : list out := if pending x then [] else [OLoginSent].
 
@@ -119,7 +96,7 @@ Definition step (auto : bool) (x : st) (e : event) : st * list out :=
   | Start ok =>
       match conn x with
       | Uninit =>
-          if ok then (mkSt Connected false false false false auto false (stopped x) false, [OConnect])
+          if ok then (mkSt Connected false false false false (watchdog_on_connect auto) false (stopped x) false, [OConnect])
           else (mkSt Closed false false false false false false (stopped x) false, [OConnect])
       | _ => (x, [OIgnored])
       end
@@ -177,9 +154,11 @@ Definition step (auto : bool) (x : st) (e : event) : st * list out :=
       match conn x with
       | Connected =>
           let '(y, o) := closed RRequested x in
-          (mkSt (conn y) (session y) (msession y) (derived y) (dist y) false false true false, o)
+          (mkSt (conn y) (session y) (msession y) (derived y) (dist y) (watchdog y && negb stop_cancels_watchdog)
+                (parents y && negb stop_stops_distributed) true false, o)
       | _ =>   (* disconnect() of a CLOSED / never opened connection returns at once: no CLOSING notification *)
-          (mkSt (conn x) (session x) (msession x) false (dist x) false false true (pending x), [])
+          (mkSt (conn x) (session x) (msession x) false (dist x) (watchdog x && negb stop_cancels_watchdog)
+                (parents x && negb stop_stops_distributed) true (pending x), [])
       end
   end.
 
